@@ -19,8 +19,10 @@ IMPORTS = {
     "C01": [("c14", None, "evaluation reduces the operands through the number tracker"),
             ("c15", None, "eval_vec / eval_iter are evaluation entry points"),
             ("c02", None, "parsing folds constant sub-expressions before anything is evaluated"),
-            ("c08", None, "binary operators in function-call notation are rewritten to the infix form that is evaluated")],
-    "C02": [("c01", ORDER + UNARY, "folding visits the operators in the application order and applies the literals' unary compositions"),
+            ("c08", None, "binary operators in function-call notation are rewritten to the infix form that is evaluated"),
+            ("c03", ["R03.3"], "the deep -> flat conversion scales nested priorities by the same kind of step")],
+    "C02": [("c16", ["R16.4"], "only associative-commutative operators of the value table may be flagged commutative (folding regroups flagged operators)"),
+            ("c01", ORDER + UNARY + ["R01.6"], "folding visits the operators in the application order and applies the literals' unary compositions"),
             ("c14", None, "the flat pre-pass and the flat -> deep converter reduce through the number tracker"),
             ("c03", ["R03.4", "R03.5", "R03.6"], "a flat expression reaches the (always folding) deep form through the per-node converter")],
     "C03": [("c01", ORDER + UNARY, "both forms must apply the operators in the same order"),
@@ -33,7 +35,7 @@ IMPORTS = {
             ("c09", ["R09.3"], "a derivative keeps the names of its antiderivative")],
     "C05": [("c10", None, "the rules build their results with the operator-application machinery"),
             ("c03", ["R03.4", "R03.6"], "a flat expression is differentiated as its deep conversion"),
-            ("c18", ["R18.3"], "how the rules' numeric constants enter the data type")],
+            ("c18", ["R18.1", "R18.3"], "the rules for comparison / piecewise operators and how the rules' numeric constants enter the data type")],
     "C06": [("c17", None, "the value-typed operators are reachable from parse_val / eval"),
             ("c16", ["R16.3"], "unchecked integer arithmetic panics in debug builds"),
             ("c01", ["R01.5"], "the sort key must not overflow for any nesting depth"),
@@ -42,7 +44,9 @@ IMPORTS = {
             ("c13", ["R13.7"], "the tokenizer slices the text at the offset the boundary helper returns")],
     "C07": [("c13", None, "what the tokenizer accepts as a token decides what is malformed"),
             ("c06", ["R06.1", "R06.2", "R06.3"], "a panic or a hang is not an error report")],
-    "C08": [("c06", ["R06.1"], "a panic on a nested call is not an accepted call"),
+    "C08": [("c01", ORDER, "the rewritten call and its explicit form are evaluated through the same application order"),
+            ("c02", None, "the deep form folds the rewritten tokens: folding must be invisible"),
+            ("c06", ["R06.1"], "a panic on a nested call is not an accepted call"),
             ("c07", ["R07.1", "R07.6"], "the parentheses the comma step adds go through the same balance check")],
     "C09": [("c04", NAMES, "same variable list, re-indexed by name"),
             ("c03", CONV, "a flat expression is differentiated through the deep form and back: the converters must keep the list")],
@@ -50,7 +54,8 @@ IMPORTS = {
             ("c04", NAMES, "the result lists the union of the names and re-indexes both operands"),
             ("c06", ["R06.1"], "a panic in the application machinery is not a result"),
             ("c16", ["R16.6"], "the shortcuts decide by T: PartialEq (is_zero / is_one): for the value type equality has to be exact")],
-    "C11": [("c03", CONV, "flat expressions are substituted through the deep form and back"),
+    "C11": [("c01", ORDER + UNARY, "the substituted expression is compiled and evaluated in the application order"),
+            ("c03", CONV, "flat expressions are substituted through the deep form and back"),
             ("c04", NAMES, "the substituted expression's list is rebuilt and re-indexed")],
     "C12": [("c05", ["R05.7"], "the printed names have to stay aligned with the functions they name"),
             ("c03", ["R03.3", "R03.4", "R03.5", "R03.6"], "printing a flat expression prints its deep conversion"),
